@@ -82,6 +82,45 @@ func (w *World) newExec(fn *ssa.Function, ct *Contract, opts VerifyOpts, cuts ma
 	return e
 }
 
+// substLens replaces the lengths of string and slice fields inside a structure value by the constants the path
+// condition fixes them to.
+func (e *Exec) substLens(v Val, m map[*Term]*Term, depth int) (Val, bool) {
+	if depth > 4 {
+		return v, false
+	}
+	switch x := v.(type) {
+	case *StringVal:
+		if nl := e.C.Subst(x.Len, m); nl.IsConst() && nl != x.Len {
+			nx := *x
+			nx.Len = nl
+			return &nx, true
+		}
+	case *SliceVal:
+		if nl := e.C.Subst(x.Len, m); nl.IsConst() && nl != x.Len {
+			nx := *x
+			nx.Len = nl
+			if nc := e.C.Subst(x.Cap, m); nc.IsConst() {
+				nx.Cap = nc
+			}
+			return &nx, true
+		}
+	case *StructVal:
+		var nf []Val
+		for i, f := range x.Fields {
+			if nv, ch := e.substLens(f, m, depth+1); ch {
+				if nf == nil {
+					nf = append([]Val{}, x.Fields...)
+				}
+				nf[i] = nv
+			}
+		}
+		if nf != nil {
+			return &StructVal{T: x.T, Named: x.Named, Fields: nf}, true
+		}
+	}
+	return v, false
+}
+
 func paramName(p *ssa.Parameter, i int) string {
 	if p.Name() == "" || p.Name() == "_" {
 		return fmt.Sprintf("arg%d", i)
@@ -184,6 +223,12 @@ func (w *World) verifyOnce(fn *ssa.Function, ct *Contract, opts VerifyOpts, cuts
 				}
 			}
 			bindPositional(vars, fn, args)
+			// the same for string / slice fields of the structures the parameters point to
+			for id, root := range st.Heap {
+				if nv, changed := e.substLens(root, m, 0); changed {
+					st.Heap[id] = nv
+				}
+			}
 		}
 	}
 	e.cover(st, "requires")
